@@ -183,13 +183,15 @@ type lineExp struct {
 	ts     uint64
 	bits   uint64
 	nan    bool
+	valLab string
+	tsLab  string
 }
 
 var reDigits = regexp.MustCompile(`^[0-9]+$`)
 
 // classify derives what must happen to a line from its text alone.
 func classify(line []byte, valLabel, tsLabel string) lineExp {
-	e := lineExp{Line: string(line)}
+	e := lineExp{Line: string(line), valLab: valLabel, tsLab: tsLabel}
 	f := strings.Fields(string(line))
 	if len(f) != 3 {
 		e.cls, e.Why = clsSkip, "fields"
@@ -443,11 +445,11 @@ func checkFrames(res *mon.Result, where string, exps []lineExp, ans pyStreamAns,
 			st.emitted++
 		}
 		if f.T != strconv.FormatUint(e.ts, 10) {
-			res.Violate("pickle-frame-ts-differs:"+e.Why+":"+where, fmt.Sprintf("line %q: decoded timestamp %s, token %s", e.Line, f.T, e.tsTok), w())
+			res.Violate("pickle-frame-ts-differs:ts="+e.tsLab+":"+where, fmt.Sprintf("line %q: decoded timestamp %s, token %s", e.Line, f.T, e.tsTok), w())
 		}
 		vb, _ := strconv.ParseUint(f.V, 16, 64)
 		if !(vb == e.bits || (e.nan && math.IsNaN(math.Float64frombits(vb)))) {
-			res.Violate("pickle-frame-value-differs:"+e.Why+":"+where, fmt.Sprintf("line %q: decoded value %s (bits %016x), token %s is %s (bits %016x)", e.Line, f.H, vb, e.valTok, pyHex(math.Float64frombits(e.bits)), e.bits), w())
+			res.Violate("pickle-frame-value-differs:value="+e.valLab+":"+where, fmt.Sprintf("line %q: decoded value %s (bits %016x), token %s is %s (bits %016x)", e.Line, f.H, vb, e.valTok, pyHex(math.Float64frombits(e.bits)), e.bits), w())
 		}
 		ascii := true
 		for _, c := range nb {
@@ -474,7 +476,7 @@ func checkFrames(res *mon.Result, where string, exps []lineExp, ans pyStreamAns,
 		case clsEmit:
 			missing++
 			if !allowMissing {
-				res.Violate("pickle-frame-missing:"+e.Why+":"+where, fmt.Sprintf("line %q is representable but no frame was emitted for it", e.Line), wit(map[string]interface{}{"line": e.Line}))
+				res.Violate("pickle-frame-missing:"+where, fmt.Sprintf("line %q (%s) is representable but no frame was emitted for it", e.Line, e.Why), wit(map[string]interface{}{"line": e.Line}))
 			}
 		case clsEither:
 			eitherSkipped++
@@ -627,7 +629,7 @@ func pickleDestination(res *mon.Result, tbl *table.Table, py *pyVerify, ri int, 
 		if len(conns) > 1 {
 			res.Count("pickle_dest_reconnects", len(conns)-1)
 		}
-		exps = append(exps, lineExp{Line: end + " 1 1", cls: clsEmit, Class: "emit", Why: "marker", name: []byte(end), valTok: "1", tsTok: "1", ts: 1, bits: math.Float64bits(1)})
+		exps = append(exps, lineExp{Line: end + " 1 1", cls: clsEmit, Class: "emit", Why: "marker", valLab: "marker", tsLab: "marker", name: []byte(end), valTok: "1", tsTok: "1", ts: 1, bits: math.Float64bits(1)})
 		nSkip := 0
 		for _, e := range exps {
 			switch e.cls {
@@ -1463,8 +1465,8 @@ func main() {
 	if err := os.WriteFile(aggFile, []byte("[default]\npattern = .*\nxFilesFactor = 0.5\naggregationMethod = average\n"), 0644); err != nil {
 		panic(err)
 	}
-	nCases := mon.N(200, 10000)
-	nLines := mon.N(150, 500)
+	nCases := mon.N(200, 4000)
+	nLines := mon.N(150, 300)
 	bbEvery := mon.N(4, 8) // every n-th case also runs through a real grafanaNet route
 	mst := &mdStats{m: map[string]int{}}
 	jobs := make(chan int, 16)
@@ -1504,8 +1506,8 @@ func main() {
 	res.Set("deciding_rule_kinds", kinds)
 	res.Floor("pickle_frames_decoded_by_cpython", pst.frames, mon.N(8000, 300000))
 	res.Floor("pickle_lines_unrepresentable", pst.skipped, mon.N(1500, 30000))
-	res.Floor("md_compared_whitebox", mst.m["md_compared_whitebox"], mon.N(20000, 3500000))
-	res.Floor("md_compared_blackbox", mst.m["md_compared_blackbox"], mon.N(5000, 400000))
-	res.Floor("md_lines_deciding_non_default_rule", mst.m["md_lines_deciding_non_default_rule"], mon.N(5000, 500000))
+	res.Floor("md_compared_whitebox", mst.m["md_compared_whitebox"], mon.N(20000, 800000))
+	res.Floor("md_compared_blackbox", mst.m["md_compared_blackbox"], mon.N(5000, 100000))
+	res.Floor("md_lines_deciding_non_default_rule", mst.m["md_lines_deciding_non_default_rule"], mon.N(5000, 300000))
 	res.Write()
 }
